@@ -104,6 +104,11 @@ def _call(args):
     return func(task)
 
 
+def _worker_init():
+    import gc
+    gc.enable()          # the parent runs with the cyclic GC off (it only accumulates large acyclic results); workers keep it on
+
+
 def pmap(func, tasks, nproc=None, chunksize=1):
     """Run func(task) -> Acc over tasks in a fork pool; yields Accs.  func must be a module-level function."""
     tasks = list(tasks)
@@ -113,7 +118,7 @@ def pmap(func, tasks, nproc=None, chunksize=1):
             yield func(t)
         return
     ctx = multiprocessing.get_context('fork')
-    with ctx.Pool(min(nproc, len(tasks))) as pool:
+    with ctx.Pool(min(nproc, len(tasks)), initializer=_worker_init) as pool:
         for r in pool.imap_unordered(_call, [(func, t) for t in tasks], chunksize):
             yield r
 
@@ -274,6 +279,8 @@ def fresh_map(func, tasks, nproc=None, timeout=600):
                     os.close(r)
                     for fd in list(running):
                         os.close(fd)
+                    import gc
+                    gc.enable()
                     try:
                         out = ('ok', func(tasks[nxt]))
                     except BaseException as e:  # noqa
